@@ -68,6 +68,9 @@ def collect(run, rng, nworlds, nqueries, mode, thresholds_fn, quality, nsteps=(4
                                 {"op": op, "kids": [aq, other] if rng.random() < 0.5 else [other, aq], "b4": 4}
                     if spans and qi % 5 == 4:
                         aq = world.rand_span_query(rng, rng.randrange(1, 3))
+                    if mode != "rank" and "scale" in aq:
+                        # (coordinated scores are not dyadic: they are only compared in the rank regime)
+                        aq = dict((k, v) for k, v in aq.items() if k != "scale")
                     if mode == "rank" and aq["op"] == "or" and len(aq["kids"]) >= 2 and qi % 3 == 0:
                         aq["scale"] = rng.choice([0.5, 0.9, 0.99])       # coordination bonus (CoordMatcher)
                     q = world.to_query(aq)
